@@ -308,6 +308,8 @@ func checkC16(p *Program, r *Report) {
 		}
 		r.Check(len(extra) == 0, "array."+n.Obj().Name()+" is exactly Base", p.Pos(n.Obj().Pos()), "no state outside the embedded Base", "additional fields "+strings.Join(extra, ",")+" are not serialised")
 	}
+	// the generic accessor decodes elements with encode.TypeEncoder
+	checkCodecsAs(p, r, "C16")
 }
 
 // checkRejectBeforeEffects: the return of the sentinel error cannot be reached
